@@ -60,6 +60,18 @@ func registerCrashFunctions() {
 		return args[0], nil
 	}
 	genql.RegisterFunction("crashf", f)
+	// crashfall: fails / panics on EVERY call (mode as for crashf)
+	genql.RegisterFunction("crashfall", func(_ *genql.Query, _ genql.Map, _ *genql.FunctionOptions, args []any) (any, error) {
+		switch atomic.LoadInt32(&crashMode) {
+		case 1:
+			return nil, errors.New("injected failure")
+		case 2:
+			panic("injected panic (not an error value)")
+		case 3:
+			panic(errors.New("injected panic (error value)"))
+		}
+		return float64(1), nil
+	})
 }
 
 func runOneCrashCase(c crashCase) (class string, detail string) {
@@ -181,6 +193,19 @@ var crashCorpus = []string{
 	"SELECT ONCE.crashf(id DIV 0) AS v FROM t",
 	"SELECT DISTINCT (SELECT p FROM items) AS s, * FROM t",
 	"SELECT DISTINCT (SELECT * FROM dual) AS s, * FROM t",
+	// PARALLEL joins over many keys whose ON fails / panics on every key, and PARALLEL joins nested in the ON of a
+	// PARALLEL join over many keys: bounded worker pools and process-wide limits must not block for ever
+	"SELECT * FROM big40 AS a PARALLEL JOIN big40 AS b ON a.k >= b.k AND crashfall(a.k)",
+	"SELECT * FROM big AS a PARALLEL JOIN big AS b ON a.k = b.k AND crashfall(a.k)",
+	"SELECT * FROM big40 AS a PARALLEL LEFT JOIN big40 AS b ON a.k != b.k AND crashfall(b.k)",
+	"SELECT x.id AS id FROM big x PARALLEL JOIN big y ON x.id = y.id AND EXISTS (SELECT p.id FROM `<-`.big40 p PARALLEL JOIN `<-`.big40 q ON p.id = q.id)",
+	"SELECT x.id AS id FROM big x PARALLEL JOIN big y ON x.id >= y.id AND EXISTS (SELECT p.id FROM `<-`.big40 p PARALLEL JOIN `<-`.big40 q ON p.id = q.id)",
+	// a CTE that reads itself through the backward reference from a row-scoped subquery / EXISTS / IN of its own body
+	"WITH a AS (SELECT id, (SELECT id FROM `<-`.a LIMIT 1) AS x FROM t) SELECT * FROM a",
+	"WITH a AS (SELECT id FROM t WHERE EXISTS (SELECT id FROM `<-`.a)) SELECT * FROM a",
+	"WITH a AS (SELECT id FROM t WHERE id IN (SELECT id FROM `<-`.a)) SELECT * FROM a",
+	"WITH a AS (SELECT id, (SELECT id FROM `<-a` LIMIT 1) AS x FROM t) SELECT * FROM a",
+	"WITH a AS (SELECT id FROM b), b AS (SELECT id, (SELECT id FROM `<-`.a LIMIT 1) AS x FROM t) SELECT * FROM a",
 	// the backward reference selected as a VALUE: the row then points at the enclosing scope, which must not come to
 	// contain the result (memoised CTE rows) — formatting such a row (DISTINCT, UNION, GROUP BY) would never end
 	"WITH c AS (SELECT (SELECT `<-` AS p FROM dual) AS x FROM t) SELECT DISTINCT * FROM c",
@@ -247,7 +272,11 @@ func genCrashCases(r *Rand, tier string) []crashCase {
 				row.(map[string]any)["->"] = "dst"
 			}
 		}
-		return map[string]any{"t": t.rows, "u": u.rows, "n": []any{t.rows, u.rows}, "vals": []any{map[string]any{"v": float64(1)}}}
+		big := make([]any, 70)
+		for i := range big {
+			big[i] = map[string]any{"k": float64(i), "id": float64(i)}
+		}
+		return map[string]any{"t": t.rows, "u": u.rows, "n": []any{t.rows, u.rows}, "vals": []any{map[string]any{"v": float64(1)}}, "big": big, "big40": big[:40]}
 	}
 	add := func(sql string, doc map[string]any, tags ...string) {
 		// all 2^3 option combinations for a share of the cases, a random one otherwise
@@ -256,14 +285,20 @@ func genCrashCases(r *Rand, tier string) []crashCase {
 			combos = []int{0, 1, 2, 3, 4, 5, 6, 7}
 		}
 		for _, o := range combos {
-			c := crashCase{ID: id, SQL: sql, Doc: doc, Wrapped: o&1 != 0, PG: o&2 != 0, Idiom: o&4 != 0, Tags: tags}
-			if strings.Contains(sql, "crashf") {
-				c.Fail = 1 + r.Intn(3)
-				c.Trigger = float64(1 + r.Intn(4))
-				c.Tags = append(c.Tags, fmt.Sprintf("failmode:%d", c.Fail))
+			modes := []int{1 + r.Intn(3)}
+			if strings.Contains(sql, "crashfall") {
+				modes = []int{1, 2, 3} // error, panic with a non-error value, panic with an error value
 			}
-			out = append(out, c)
-			id++
+			for _, mode := range modes {
+				c := crashCase{ID: id, SQL: sql, Doc: doc, Wrapped: o&1 != 0, PG: o&2 != 0, Idiom: o&4 != 0, Tags: append([]string{}, tags...)}
+				if strings.Contains(sql, "crashf") {
+					c.Fail = mode
+					c.Trigger = float64(1 + r.Intn(4))
+					c.Tags = append(c.Tags, fmt.Sprintf("failmode:%d", c.Fail))
+				}
+				out = append(out, c)
+				id++
+			}
 		}
 	}
 	for round := 0; round < n; round++ {
